@@ -42,12 +42,12 @@ def pre_close(cause: int, rk: int, rn: int, rm: int, b0: int, cb: bool, rscript:
     else:
         if not (0 <= rn <= 2 and -1 <= rm <= P.MB):
             return False
-    if len(rscript) > P.K or not (0 <= tail <= P.T and 1 <= later <= 2):
+    if len(rscript) > P.K or not (0 <= tail <= P.T and 1 <= later <= P.L):
         return False
     for a in rscript:
         if not 0 <= a <= 2:
             return False
-    return in_shard((cause if cause < WERR else 4) + 5 * rk)
+    return in_shard((cause if cause < WERR else 4) + 5 * rk + 35 * b0)
 
 
 _C_UNITS = ["iostream.BaseIOStream.close", "iostream.BaseIOStream._signal_closed",
@@ -68,9 +68,9 @@ _C_STUBS = ["FakeFdStream scripted kernel (harness/_iostream_rig.py); right afte
 
 @harness(
     pre=pre_close,
-    quick=dict(B0=1, NB=2, MB=3, K=1, T=1, timeout=100, reach_timeout=60),
-    thorough=dict(B0=3, NB=4, MB=4, K=2, T=2, timeout=1500, reach_timeout=120),
-    nshards=dict(quick=35, thorough=35),
+    quick=dict(B0=1, NB=2, MB=2, K=1, T=1, L=1, timeout=100, reach_timeout=60),
+    thorough=dict(B0=1, NB=3, MB=3, K=2, T=1, L=2, timeout=1500, reach_timeout=120),
+    nshards=dict(quick=70, thorough=70),
     classify=lambda **a: _classify(h_close_read, a),
     reach=["read_completed_at_close", "read_failed_real_error", "unsatisfiable", "callback_ran",
            "later_read_from_buffer", "inline_error_raised"],
@@ -87,18 +87,18 @@ def h_close_read(cause: int, rk: int, rn: int, rm: int, b0: int, cb: bool, rscri
 
 
 def pre_cw(cause: int, nw: int, wa: int, cb: bool, conn: bool, pend: bool, tail: int) -> bool:
-    if not (0 <= cause <= 5 and 0 <= nw <= 2 and -1 <= wa <= 2 and 0 <= tail <= 1):
+    if not (0 <= cause <= 5 and 0 <= nw <= 2 and -1 <= wa <= P.WA and 0 <= tail <= 1):
         return False
     if conn and cause == WERR:
         return False
-    return in_shard(cause)
+    return in_shard(cause + 6 * nw)
 
 
 @harness(
     pre=pre_cw,
-    quick=dict(K=1, timeout=100, reach_timeout=60),
-    thorough=dict(K=1, timeout=1500, reach_timeout=120),
-    nshards=dict(quick=6, thorough=6),
+    quick=dict(K=1, WA=1, timeout=100, reach_timeout=60),
+    thorough=dict(K=1, WA=2, timeout=1500, reach_timeout=120),
+    nshards=dict(quick=18, thorough=18),
     reach=["write_failed", "connect_failed", "callback_ran", "read_failed_real_error"],
     classify=lambda **a: _classify(h_close_write, a),
     units=_C_UNITS, stubs=_C_STUBS,
